@@ -22,6 +22,26 @@ def random_program(rng, ntests):
             "seed": rng.randrange(1, 100000), "tests": tests}
 
 
+def sig(p):
+    return (json.dumps([(t["g"], t["n"], t["ign"]) for t in p["tests"]]), p["runIgnored"])
+
+
+def sessions(rng, base, k):
+    """k runs over the SAME registered tests (the harness keeps the shell objects, as a real program's static shells are kept) with
+    different filters / order options each time: whatever a shell remembers from one run must not leak into the next"""
+    out = [base]
+    for _ in range(k - 1):
+        v = random_program(rng, 0)
+        v["tests"] = base["tests"]; v["runIgnored"] = base["runIgnored"]
+        out.append(v)
+    if rng.random() < 0.6:
+        # driven through TestRegistry's API with filter objects that live across the runs at fixed addresses and are re-assigned
+        for v in out:
+            v["api"] = True
+            v["gf"] = v["gf"][:8]; v["nf"] = v["nf"][:8]
+    return out
+
+
 def run(ctx):
     quick = ctx.quick
     exe = ctx.build_harness("testrun", "asan")
@@ -42,6 +62,7 @@ def run(ctx):
     progs = [T.prog_from_beh(b) for b in g.beh]
     if not progs:
         raise Infra("no programs generated")
+    progs.sort(key=sig)          # programs over the same tests become neighbours: the harness then re-uses the shell objects
     ctx.sample({"source": "TLC Gen_TestRun select (simulation, forced shuffle draws)", "program": ["\t".join(map(str, l)) for l in T.prog_lines(progs[0])]})
     tcfg, pcfg = T.trace_cfgs(ctx, "gen", cap, maxset, True)
     T.run_programs(ctx, exe, "gen-select", progs, tcfg, pcfg)
@@ -52,11 +73,13 @@ def run(ctx):
     gcfg = ctx.write_cfg("Gen_TestRun_sel1", T.MC % {"spec": "GSpec", "cap": cap, "exc": "TRUE", "maxset": 2, "locs": "1, 2", "mode": "select",
                          "maxtests": 1, "evs": '"ok"', "invs": "Dump"})
     g = ctx.tlc("Gen_TestRun", gcfg, workers=8, timeout=1200, heap="8g")
-    progs = [T.prog_from_beh(b) for b in g.beh]
+    progs = sorted([T.prog_from_beh(b) for b in g.beh], key=sig)
     T.run_programs(ctx, exe, "gen-select1", progs, tcfg, pcfg)
     # ---- leg 3: random registries, real rand() with random seeds, reverse, repeat, filters through the real command line
     n = (25, 30) if quick else (300, 60)
-    progs = [random_program(ctx.rng, ctx.rng.randrange(0, n[1])) for _ in range(n[0])]
+    progs = []
+    for _ in range(n[0]):
+        progs += sessions(ctx.rng, random_program(ctx.rng, ctx.rng.randrange(0, n[1])), ctx.rng.choice([1, 3, 4]))
     ctx.sample({"source": "seeded random driver", "program": ["\t".join(map(str, l)) for l in T.prog_lines(progs[1])][:10]})
     T.run_programs(ctx, exe, "random", progs, tcfg, pcfg, tlc_timeout=2400, heap="12g")
     for p in progs:
